@@ -55,6 +55,7 @@ RULES = {
     'P7f': ('rules_wait', 'every waiter tests the writer count against zero and the awaited tag cell against the sequence number (argument roles)'),
     'P7h': ('rules_wait', 'the wake-up condition accepts a tag equal to OR ahead of the awaited sequence number'),
     'P7i': ('rules_wait', 'every loop of Wait::wait re-reads the awaited cell on each iteration (zero spin counts included)'),
+    'P7j': ('rules_wait', 'fut_wait answers "retry" only after evaluating the wake-up condition (zero spin counts included)'),
     'P7g': ('rules_wait', 'the wake-up condition does not mistake a never-written slot (tag bit set) for a published one'),
     'P8': ('rules_wait', 'sender drop: writers-1 (>=Release) then unconditional waiter.notify()'),
     'P9e': ('rules_wait', 'every handle removes its reclamation token on every drop path'),
@@ -131,7 +132,7 @@ DATAPATH = ['P1a', 'P1b', 'P1c', 'P1d', 'P1e', 'P1f', 'P1g', 'P1h', 'P2a', 'P2b'
 
 # rules of the futures adapters and of parking / waking: a broken one shows up under C13, C14 or C15 (and C11 when the
 # wake-up that follows a stream removal is lost), so those checks share them
-FUTURES = ['P2d', 'P6b', 'P6c', 'P6d', 'P7c', 'P7d', 'P7e', 'P7f', 'P7g', 'P7h', 'P9d', 'P11a', 'P11b', 'P11c', 'P11d', 'P11e', 'P11f',
+FUTURES = ['P2d', 'P6b', 'P6c', 'P6d', 'P7c', 'P7d', 'P7e', 'P7f', 'P7g', 'P7h', 'P7j', 'P9d', 'P11a', 'P11b', 'P11c', 'P11d', 'P11e', 'P11f',
            'P11g', 'P11h', 'P11i', 'P8']
 
 PROPS = {
